@@ -163,3 +163,23 @@ S8 = Scenario(
             "elem_kinds": "NLDX"},
     depth={"quick": 2, "thorough": 3},
     note="element data edits, compound constructors, top instance")
+
+S10 = Scenario(
+    "S10-bundle-attributes", seeds.seed_bundles,
+    ["bundle.is_downto=", "bundle.is_scalar=", "bundle.is_array=", "bundle.lower_index=", "port.direction=",
+     "port.create_pins", "port.remove_pin", "cable.create_wires", "cable.remove_wire", "port.pins=", "cable.wires="],
+    limits={"positions": (None,), "names": (None,)},
+    depth={"quick": 2, "thorough": 3},
+    note="bundle attribute setters (scalar/array on 1- and 2-wide bundles), pin/wire growth and shrink")
+
+S11 = Scenario(
+    "S11-two-netlists", seeds.seed_two_netlists,
+    ["netlist.remove_library", "netlist.add_library", "library.remove_definition", "library.add_definition",
+     "instance.reference=", "instance.reference=None", "netlist.top_instance=", "netlist.top_instance=None",
+     "definition.remove_child", "definition.add_child", "definition.remove_port", "port.create_pin"],
+    limits={"positions": (None,), "names": (None,)},
+    depth={"quick": 2, "thorough": 3},
+    note="two netlists referencing each other's definitions: cross-netlist moves, re-points and top changes")
+
+STRUCTURAL += [S10, S11]
+INSTANCE_SCENARIOS += [S11]
